@@ -52,15 +52,15 @@ def strategy_case(draw):
         kinds = ["int", "float", "npfloat64", "t0d", "t1", "t0d_i64", "t0d_other"] + (["complex"] if core.is_complex(dt) else [])
         case["s"] = draw(gen.scalar(kinds))
     elif op in ("smul",):
-        kinds = ["int", "float", "npfloat64", "t0d", "t1", "t0d_i64", "t0d_other"] + (["complex"] if core.is_complex(dt) else [])
+        kinds = ["int", "float", "npfloat64", "npint", "npfloat32", "t0d", "t1", "t0d_i64", "t0d_other"] + (["complex"] if core.is_complex(dt) else [])
         case["s"] = draw(gen.scalar(kinds))
     elif op in ("rsub", "rmul"):
         kinds = ["int", "float"] + (["complex"] if core.is_complex(dt) else [])
         case["s"] = draw(gen.scalar(kinds))
     elif op == "sdiv":
-        s = draw(gen.scalar(["int", "float", "t0d", "t1"]))
-        if s["value"] == 0:
-            s["value"] = 2
+        s = draw(gen.scalar(["int", "float", "npfloat64", "npint", "npfloat32", "t0d", "t1", "t0d_i64"] + (["complex"] if core.is_complex(dt) else [])))
+        if s["value"] == 0 or s["value"] == [0, 0] or s["value"] == [0.0, 0.0]:
+            s["value"] = 2 if s["kind"] != "complex" else [2.0, 1.0]
         case["s"] = s
     return case
 
